@@ -174,6 +174,55 @@ fn judge_continued(k: &str, c: usize, results: &[Result<(), ErrInfo>], pos: usiz
     Ok(())
 }
 
+/// The "fill packets" pattern of a no_std user: one long-lived `Encoder` over an owned cursor of `cap` bytes; when a value does
+/// not fit, the full packet is taken out through `writer_mut()`, a fresh cursor is installed and the value is tried once more.
+/// Returns the packets (valid bytes only) or the violation.
+fn packetize(values: &[ValSpec], cap: usize, encodings: &[&[u8]]) -> Result<(), Violation> {
+    let mut enc = minicbor::Encoder::new(Cursor::new(vec![PATTERN; cap].into_boxed_slice()));
+    let mut packets: Vec<Vec<u8>> = Vec::new();
+    // model: greedy packing; a value longer than a whole packet is dropped
+    let mut model: Vec<Vec<u8>> = vec![Vec::new()];
+    for (j, v) in values.iter().enumerate() {
+        let e = encodings[j];
+        let before = enc.writer().position();
+        let first = with_value(v, EncodeThrough { enc: &mut enc });
+        let fits_here = model.last().unwrap().len() + e.len() <= cap;
+        match (&first, fits_here) {
+            (Ok(()), true) => {
+                model.last_mut().unwrap().extend_from_slice(e);
+                continue;
+            }
+            (Ok(()), false) => fail!("fit_iff", "packets of {cap} bytes: value #{j} ({} bytes) reported success with {} bytes of room left", e.len(), cap - model.last().unwrap().len()),
+            (Err(er), true) => fail!("fit_iff", "packets of {cap} bytes: value #{j} ({} bytes) fits the room left ({}) but was refused ({})", e.len(), cap - model.last().unwrap().len(), er.msg),
+            (Err(er), false) if !er.is_write => fail!("err_is_write", "packets of {cap} bytes: value #{j} does not fit, but the failure is not a write error ({})", er.msg),
+            (Err(_), false) => {}
+        }
+        // ship the packet as it stood before the refused value, start a fresh one, try the value again
+        let full = std::mem::replace(enc.writer_mut(), Cursor::new(vec![PATTERN; cap].into_boxed_slice()));
+        packets.push(full.into_inner()[..before].to_vec());
+        model.push(Vec::new());
+        let second = with_value(v, EncodeThrough { enc: &mut enc });
+        match (&second, e.len() <= cap) {
+            (Ok(()), true) => model.last_mut().unwrap().extend_from_slice(e),
+            (Ok(()), false) => fail!("fit_iff", "packets of {cap} bytes: value #{j} ({} bytes) reported success in a fresh packet", e.len()),
+            (Err(er), true) => fail!("fit_iff", "packets of {cap} bytes: value #{j} ({} bytes) was refused by a FRESH packet on the same Encoder ({})", e.len(), er.msg),
+            (Err(er), false) if !er.is_write => fail!("err_is_write", "packets of {cap} bytes: value #{j} is longer than a packet, but the failure is not a write error ({})", er.msg),
+            (Err(_), false) => {
+                // too long for any packet: dropped; whatever prefix it left is discarded with a fresh cursor
+                *enc.writer_mut() = Cursor::new(vec![PATTERN; cap].into_boxed_slice());
+            }
+        }
+    }
+    let last = enc.into_writer();
+    let pos = last.position();
+    packets.push(last.into_inner()[..pos.min(cap)].to_vec());
+    if packets != model {
+        let k = packets.iter().zip(model.iter()).position(|(a, b)| a != b).unwrap_or(packets.len().min(model.len()));
+        fail!("bytes_equal", "packets of {cap} bytes: packet #{k} differs from greedy packing of the encodings ({} packets, expected {})", packets.len(), model.len());
+    }
+    Ok(())
+}
+
 /// Records the encoder's internal `write_all` sequence (lengths), to know the write boundaries.
 struct Rec {
     bytes: Vec<u8>,
@@ -385,6 +434,18 @@ fn run_encode(values: &[ValSpec], only_sink: Option<Sink>, only_cap: Option<u32>
     let cuts = rec.cuts;
     let n = reference.len();
     let keep_going = values.len() >= 2;
+    // the encoding of each value on its own (slices of the reference)
+    let encodings: Vec<&[u8]> = {
+        let mut out = Vec::new();
+        let (mut w, mut start) = (0usize, 0usize);
+        for &nw in &per_value {
+            let end = if nw == 0 { start } else { cuts[w + nw - 1] };
+            out.push(&reference[start..end]);
+            start = end;
+            w += nw;
+        }
+        out
+    };
     let mut vec_ref = Vec::new();
     let _ = encode_all(values, &mut vec_ref);
     if vec_ref != reference {
@@ -546,6 +607,7 @@ fn run_encode(values: &[ValSpec], only_sink: Option<Sink>, only_cap: Option<u32>
                         let pos = cur.position();
                         let inner = cur.into_inner();
                         judge_continued(sink.name(), c, &results, pos, &inner, &continued_model(&reference, &cuts, &per_value, c))?;
+                        packetize(values, c, &encodings)?;
                     }
                 }
                 Sink::VecSink => {
